@@ -12,23 +12,38 @@ From NC Require Import Model.Base Model.XTree Model.XmlHelpers Model.XmlHistory.
 Inductive rop :=
 | RParse (huge : bool) (s : bytes)      (* to_ele(s, huge_tree=huge): a string *)
 | RHelper (k : nat) (op : hop)          (* a helper of xml_ on an element of the k-th tree *)
-| RCaller (k : nat) (t' : mnode).       (* the caller's own edit of the k-th tree through the lxml API: it is t' afterwards *)
+| RCaller (k : nat) (t' : mnode)        (* the caller's own edit of the k-th tree through the lxml API: it is t' afterwards *)
+| RRaised (huge : bool) (s : bytes).    (* a parsing helper that raised although the parser did not refuse the octets: the text
+                                           has no UTF-8 encoding (x.encode raises, nothing reaches the parser; s = its code
+                                           points, surrogates passed) / validated_element: the root of the tree does not meet
+                                           the caller's requirement (XMLError; the tree made is dropped) *)
 
 (* the tree a call is given (None: it is given a text) *)
 Definition rop_tree (op : rop) : option nat :=
-  match op with RParse _ _ => None | RHelper k _ | RCaller k _ => Some k end.
+  match op with RParse _ _ | RRaised _ _ => None | RHelper k _ | RCaller k _ => Some k end.
 
 Section WithOracles.
 Variable parser : bool -> bytes -> option mnode.   (* etree.fromstring(octets, parser): None = XMLSyntaxError *)
 Variable ser : mnode -> bytes -> bytes.            (* etree.tostring *)
 
 (* one call: the trees handed out so far -> afterwards; None = the call names no tree / no element.
-   A text the parser rejects raises: no tree is handed out and nothing else happens. *)
+   A text the parser rejects raises: no tree is handed out and nothing else happens - the parser objects of the
+   module carry nothing from one call to the next (etree.fromstring on complete octets), whether the call returned or
+   raised, before (encode) / inside (syntax, size limit) / after (requirement) the parser. *)
 Definition rstep (ts : list mnode) (op : rop) : option (list mnode) :=
   match op with
   | RParse h s => Some (match parser h s with Some t => ts ++ [t] | None => ts end)
   | RHelper k o => update_nth k (fun t => option_map fst (hstep ser t o)) ts
   | RCaller k t' => update_nth k (fun _ => Some t') ts
+  | RRaised _ _ => Some ts
+  end.
+
+(* does the call raise (no tree is handed out)? *)
+Definition rraises (op : rop) : bool :=
+  match op with
+  | RParse h s => match parser h s with Some _ => false | None => true end
+  | RRaised _ _ => true
+  | _ => false
   end.
 
 Fixpoint rrun (ts : list mnode) (ops : list rop) : option (list mnode) :=
